@@ -428,7 +428,7 @@ static void installCallbacks(World *w, Transport *t)
       if (w->armReset.compare_exchange_strong(e, false))
       {
         // sole owner releases the transport inside its own close callback (I/O thread): deferred self-destruction
-        w->tr.add(vf::Ev("LifeCall").str("t", "io").str("op", "destroy_in_cb"));
+        w->tr.add(vf::Ev("LifeCall").str("t", "io").str("op", "destroy_in_cb").i("vt", w->vms()));
         w->owner.reset();
         w->tr.add(vf::Ev("LifeRet").str("t", "io").str("op", "destroy_in_cb"));
       }
@@ -544,7 +544,7 @@ static void appOps(World *w, const ThreadProg &tp, std::vector<std::thread> *oth
     }
     else if (op == "stop")
     {
-      w->tr.add(vf::Ev("LifeCall").str("t", tp.name).str("op", "stop"));
+      w->tr.add(vf::Ev("LifeCall").str("t", tp.name).str("op", "stop").i("vt", w->vms()));
       t->stop();
       w->stopReturned.store(true);
       w->tr.add(vf::Ev("LifeRet").str("t", tp.name).str("op", "stop"));
@@ -570,7 +570,7 @@ static void appOps(World *w, const ThreadProg &tp, std::vector<std::thread> *oth
         if (allQuiet) break;
         sched_yield();
       }
-      w->tr.add(vf::Ev("LifeCall").str("t", tp.name).str("op", "destroy"));
+      w->tr.add(vf::Ev("LifeCall").str("t", tp.name).str("op", "destroy").i("vt", w->vms()));
       w->destroyed = true;
       w->owner.reset();
       w->stopReturned.store(true);
@@ -623,7 +623,7 @@ static std::string runOne(int cap, const std::vector<ThreadProg> &prog, const vf
               vf::point("call");
               if (!w->destroyed.load())
               {
-                w->tr.add(vf::Ev("LifeCall").str("t", "main").str("op", "destroy"));
+                w->tr.add(vf::Ev("LifeCall").str("t", "main").str("op", "destroy").i("vt", w->vms()));
                 w->owner.reset();
                 w->stopReturned.store(true);
                 w->tr.add(vf::Ev("LifeRet").str("t", "main").str("op", "destroy"));
